@@ -1,6 +1,7 @@
 SPECIFICATION Spec
 CONSTANTS MaxH = 8
  EmitCases = FALSE
+ Wide = FALSE
  YPad = "top"
 INVARIANT NeverZero
 CHECK_DEADLOCK FALSE
